@@ -420,6 +420,119 @@ def replay_batch(obj):
     return e.batch_enforce([list(r) for r in reqs]) != [e.enforce(*r) for r in reqs]
 
 
+FLAG_ENV_OPS = ("load_model", "load_policy", "set_model", "set_adapter", "clear+load", "set_watcher", "build_role_links", "enable_auto_save", "enable_log")
+
+
+def _flag_env_run(kind, script):
+    """an enforcer built from a model FILE and a list adapter; script = environment calls between which the enforcer is
+    disabled / enabled; returns, per step, the decisions over a fixed request list"""
+    import os
+    import shutil
+    import tempfile
+
+    import policy_corr as pc
+
+    casbin = common.use_repo()
+    d = tempfile.mkdtemp(prefix="c01e_")
+    try:
+        mp = os.path.join(d, "model.conf")
+        open(mp, "w").write(model_text(kind, True, False))
+        rules = [["k", "t", "deny"], ["x", "t", "allow"], ["k", "t", "allow"]]
+        ad = pc.make_adapter(casbin, [("p", "p", r) for r in rules])
+        e = casbin.Enforcer(mp, ad)
+        e.add_function("f", synth_f)
+        e.enable_auto_save(False)
+        reqs = [["k"], ["x"], ["zz"]]
+        outs = []
+        for op in script:
+            try:
+                if op == "disable":
+                    e.enable_enforce(False)
+                elif op == "enable":
+                    e.enable_enforce(True)
+                elif op == "load_model":
+                    e.load_model()
+                    e.add_function("f", synth_f)
+                    e.load_policy()
+                elif op == "load_policy":
+                    e.load_policy()
+                elif op == "set_model":
+                    e.set_model(casbin.Enforcer.new_model(mp))
+                    e.add_function("f", synth_f)
+                    e.load_policy()
+                elif op == "set_adapter":
+                    e.set_adapter(pc.make_adapter(casbin, [("p", "p", r) for r in rules]))
+                    e.load_policy()
+                elif op == "clear+load":
+                    e.clear_policy()
+                    e.load_policy()
+                elif op == "set_watcher":
+                    class _W:
+                        def set_update_callback(self, f):
+                            pass
+
+                        def update(self):
+                            pass
+
+                    e.set_watcher(_W())
+                elif op == "build_role_links":
+                    e.build_role_links()
+                elif op == "enable_auto_save":
+                    e.enable_auto_save(True)
+                    e.enable_auto_save(False)
+                elif op == "enable_log":
+                    e.enable_auto_notify_watcher(False)
+                else:
+                    raise common.Infra("unknown op " + op)
+                ret = "ok"
+            except common.Infra:
+                raise
+            except Exception as ex:  # noqa
+                ret = "!" + type(ex).__name__
+            decs = []
+            for r in reqs:
+                try:
+                    decs.append(enc_bool(bool(e.enforce(*r))))
+                except Exception as ex:  # noqa
+                    decs.append("!" + type(ex).__name__)
+            outs.append((ret, decs))
+        return outs
+    finally:
+        shutil.rmtree(d, ignore_errors=True)
+
+
+def run_flag_env_stream(ctx, res, want):
+    """"a disabled enforcer allows everything" - also after the model, the policy, the adapter or the watcher have been
+    reloaded / replaced while it was disabled; and once enabled again it decides as it did before"""
+    rng = ctx["rng"]
+    scripts = [["enable", "disable", op, "enable"] for op in FLAG_ENV_OPS]
+    scripts += [["enable", "disable", a, b, "enable"] for a in FLAG_ENV_OPS[:5] for b in FLAG_ENV_OPS[:5]]
+    for kind in [k for k in KINDS if k != "sp"]:  # subject priority needs a role definition to LOAD a policy through an adapter (C07's subject)
+        for script in scripts if ctx["deep"] else rng.sample(scripts, 12) + scripts[:3]:
+            outs = _flag_env_run(kind, script)
+            base = outs[0][1]
+            disabled = False
+            for i, (op, (ret, decs)) in enumerate(zip(script, outs)):
+                if op == "disable":
+                    disabled = True
+                elif op == "enable":
+                    disabled = False
+                res.evaluations += 1
+                res.count("stream:flag-env:" + ("disabled" if disabled else "enabled"))
+                res.nontrivial.add(hash(("flag-env", kind, tuple(script[: i + 1]))))
+                exp = ["T"] * len(decs) if disabled else base
+                if ret != "ok" or decs != exp:
+                    res.violation({"signature": f"C01:flag-env:{'disabled' if disabled else 'enabled'}:{op}", "stream": "flag-env", "kind": kind, "script": script[: i + 1],
+                                   "what": f"effect {kind}: after {script[: i + 1]} (last call: {ret}) the enforcer is {'DISABLED and must allow everything' if disabled else 'enabled and must decide as before'}: decisions {decs}, expected {exp}",
+                                   "expected": exp, "observed": decs})
+                    break
+
+
+def replay_flag_env(obj):
+    outs = _flag_env_run(obj["kind"], obj["script"])
+    return outs[-1][0] != "ok" or outs[-1][1] != obj["expected"]
+
+
 def run(ctx, res, want):
     """want = 'decision' (C01) or 'explain' (C08): which part of the specification is judged"""
     # a broken proof/tie first gets the quick budget; the deep one only if that finds no failing input
@@ -430,6 +543,7 @@ def run(ctx, res, want):
         run_eval_history_stream(ctx, res, want, 400 if maxlen <= 6 else 3000)
         if want == "decision":
             run_batch_stream(ctx, res, want)
+            run_flag_env_stream(ctx, res, want)
         if res.spec_violations:
             break
     return res
@@ -502,6 +616,8 @@ def _run_stage(ctx, res, want, maxlen, nrand):
 def replay(obj, want):
     if obj.get("stream") == "batch":
         return replay_batch(obj)
+    if obj.get("stream") == "flag-env":
+        return replay_flag_env(obj)
     if obj.get("kind_of_case") == "eval-history":
         c = obj["case"]
         outs = _eval_script_run(c["kind"], [tuple(o) for o in c["script"]])
